@@ -142,10 +142,11 @@ ApiRet(o, res, t) ==
 \* waitpid(child, nohang?) = ret (0 | VPid | -1/ECHILD) with status st
 Waitpid(nohang, ret, st) ==
   /\ \/ ret = 0 /\ cst = "running" /\ nohang /\ UNCHANGED cst
+     \/ ret = VPid /\ st.k = "stopped" /\ cst = "running" /\ UNCHANGED cst   \* WUNTRACED: stopped, alive, not reaped
      \/ ret = VPid /\ cst = "zombie" /\ st = truth /\ cst' = "reaped_us"
      \/ ret = -1 /\ cst \in {"reaped_us", "reaped_ext", "alien"} /\ UNCHANGED cst
   /\ nwait' = nwait + 1 /\ nsys' = nsys + 1 /\ slept' = FALSE
-  /\ told' = (told \/ ret # 0)
+  /\ told' = (told \/ (ret # 0 /\ st.k # "stopped"))
   /\ viol' = viol
        \cup V(known = NoSt, "C09_quiet")
        \cup V(~told, "C09_quiet")
